@@ -38,6 +38,14 @@ def extra_programs():
         helpers=G + "\nclass A3:\n    def __init__(self, v):\n        self.v = g(v)\n")
     add("callback_param", ["return ap2(h5, a) - ap2(g, b)"],
         helpers=G + "\ndef h5(v):\n    return v * 5\n\ndef ap2(fn, v):\n    return fn(v)\n")
+    add("callback_by_keyword_unsorted", ["return ap3(x=a, fn=h6) - ap3(fn=g, x=b)"],
+        helpers=G + "\ndef h6(v):\n    return v * 6\n\ndef ap3(fn, x):\n    return fn(x)\n")
+    add("callback_by_keyword_mixed", ["return ap4(a, z=h7, k=b)"],
+        helpers="def h7(v):\n    return v * 7\n\ndef ap4(v, k, z):\n    return z(v + k)\n")
+    add("keyword_args_three_unsorted", ["return k3(c2=h8, b2=b, a2=a)"],
+        helpers="def h8(v):\n    return v + 8\n\ndef k3(a2, b2, c2):\n    return c2(a2 - b2)\n")
+    add("self_recursion_two_sites", ["return fact(a) + fact(b)"], helpers="def fact(n):\n    if n <= 1:\n        return 1\n    return n * fact(n - 1)\n",
+        bounds={"a": (0, 3), "b": (0, 2)})
     add("returned_closure_called", ["k = mk2(a)", "return k(b)"],
         helpers="def mk2(n):\n    def inner(v):\n        return v - n\n    return inner\n")
     return P
